@@ -133,7 +133,7 @@ func (b *builder) replace(r *ast.ReturnStmt, g []guard, dry bool) ([]ast.Stmt, i
 					}
 					var want types.Type
 					if m.tmpName != "" {
-						want = types.Typ[types.Bool]
+						want = m.tmpT
 					} else if def := b.c.info.Defs[id]; def != nil {
 						want = def.Type()
 					}
